@@ -427,17 +427,31 @@ class Flow:
         return None, None
 
 
+_EXITS = (ast.Continue, ast.Return, ast.Raise, ast.Break)
+
+
 def guards(stmt, stop):
-    """[(test expr, polarity)] of the If statements enclosing *stmt* up to function node *stop*."""
+    """[(test expr, polarity)] known at *stmt*: enclosing if-tests up to function node *stop*, plus the negation
+    of every preceding sibling `if X: ...; continue/return/raise/break` (guard clause) on the way up."""
     out = []
     cur = stmt
     while cur is not None and cur is not stop:
         par = getattr(cur, '_parent', None)
-        if isinstance(par, ast.If):
-            if any(cur is s for s in par.body):
-                out.append((par.test, True))
-            elif any(cur is s for s in par.orelse):
-                out.append((par.test, False))
+        where = None
+        if par is not None:
+            for fld in ('body', 'orelse', 'finalbody'):
+                lst = getattr(par, fld, None)
+                if isinstance(lst, list) and any(cur is x for x in lst):
+                    where = (fld, lst)
+        if where is not None:
+            fld, lst = where
+            for sib in lst:
+                if sib is cur:
+                    break
+                if isinstance(sib, ast.If) and not sib.orelse and sib.body and isinstance(sib.body[-1], _EXITS):
+                    out.append((sib.test, False))
+            if isinstance(par, ast.If):
+                out.append((par.test, fld == 'body'))
         cur = par
     return out
 
@@ -489,8 +503,8 @@ def schema_write(repo, out):
                     out.bad(f, c, f'INSERT INTO {s.table}: {len(s.cols)} columns but {s.nparams} placeholders',
                             key=f'insert-{s.table}-arity')
                     continue
-                par = astx.arg(c, 1, 'parameters')
-                if not isinstance(par, (ast.Tuple, ast.List)):
+                par = param_tuple(repo, f, c)
+                if par is None:
                     out.unsure(f, c, 'parameters are not a literal tuple')
                     continue
                 if any(isinstance(e, ast.Starred) for e in par.elts):
@@ -881,21 +895,104 @@ def giter(repo, out):
 
 
 # =========================================================================== record types
+def func_flow(repo, f):
+    c = repo.__dict__.setdefault('_c17_flows', {})
+    k = (f.rel, f.qualname)
+    if k not in c:
+        c[k] = Flow(f)
+    return c[k]
+
+
+def param_tuple(repo, f, call):
+    """The literal parameter tuple of an execute call, also when it is first bound to a local temporary."""
+    return param_tuple_at(repo, f, call)[0]
+
+
+def param_tuple_at(repo, f, call):
+    """(tuple literal, CFG node at which its elements are evaluated) or (None, None)."""
+    par = astx.arg(call, 1, 'parameters')
+    flow = func_flow(repo, f)
+    at = flow.at(call)
+    if isinstance(par, ast.Name):
+        par, at = flow.single(par.id, at)
+    return (par, at) if isinstance(par, (ast.Tuple, ast.List)) else (None, None)
+
+
+def _direct_global(repo, f):
+    """[(call, record_type expr, rowid expr, cursor expr)] of INSERT INTO global_iterations statements in f."""
+    out = []
+    for c, s, err in sql_calls(f):
+        if s is None or s.kind != 'insert' or s.table != 'global_iterations':
+            continue
+        par = param_tuple(repo, f, c)
+        rt = rid = None
+        if par is not None and len(par.elts) == len(s.cols):
+            rt = par.elts[s.cols.index('record_type')] if 'record_type' in s.cols else None
+            rid = par.elts[s.cols.index('rowid')] if 'rowid' in s.cols else None
+        out.append((c, rt, rid, astx.receiver(c)))
+    return out
+
+
+def global_sites(repo, f):
+    """global_iterations rows written by f, directly or through a helper method of its class (inlined at the call).
+
+    Each site: dict(node, lit, rowid_base (path whose .lastrowid is stored, or None), rowid_src, cursor (path)).
+    Direct inserts whose record type is a parameter of f are skipped: f is such a helper, decided at its callers.
+    """
+    params = [a.arg for a in f.node.args.args]
+    sites = []
+
+    def mk(node, rt, rid, cur, sub):
+        def S(e):
+            return sub.get(e.id, e) if isinstance(e, ast.Name) else e
+        rt, cur = (S(rt) if rt is not None else None), (S(cur) if cur is not None else None)
+        base = None
+        if isinstance(rid, ast.Attribute) and rid.attr == 'lastrowid':
+            base = astx.path(S(rid.value))
+        return dict(node=node, lit=astx.const_str(rt) if rt is not None else None,
+                    rt_src=astx.src(rt) if rt is not None else '', rowid_base=base,
+                    rowid_src=astx.src(rid) if rid is not None else None, cursor=astx.path(cur) if cur is not None else None)
+    for c, rt, rid, cur in _direct_global(repo, f):
+        if isinstance(rt, ast.Name) and rt.id in params:
+            continue
+        sites.append(mk(c, rt, rid, cur, {}))
+    cls = f.qualname.rsplit('.', 1)[0] if '.' in f.qualname else None
+    if cls:
+        for call in astx.calls(f.node):
+            if astx.path(astx.receiver(call)) != 'self':
+                continue
+            h = f.module.funcs.get(f'{cls}.{astx.callee_attr(call)}')
+            if h is None or h is f:
+                continue
+            direct = _direct_global(repo, h)
+            if not direct or any(s2 is not None and s2.kind == 'insert' and s2.table in RECORD_TABLES
+                                 for _, s2, _ in sql_calls(h)):
+                continue
+            hp = [a.arg for a in h.node.args.args][1:]
+            sub = {}
+            for i, a in enumerate(call.args):
+                if i < len(hp) and not isinstance(a, ast.Starred):
+                    sub[hp[i]] = a
+            for k in call.keywords:
+                if k.arg:
+                    sub[k.arg] = k.value
+            for c, rt, rid, cur in direct:
+                sites.append(mk(call, rt, rid, cur, sub))
+    return sites
+
+
 def inserted_record_types(repo, sch):
-    """[(func, literal, global insert call, case-table inserts in the same function)]."""
+    """[(func, literal, global insert site node, case-table inserts in the same function)]."""
     m = repo.module(REC)
     out = []
     for f in m.funcs.values():
-        ins = [(c, s) for c, s, err in sql_calls(f) if s is not None and s.kind == 'insert']
-        gl = [(c, s) for c, s in ins if s.table == 'global_iterations']
-        if not gl:
+        sites = global_sites(repo, f)
+        if not sites:
             continue
-        for c, s in gl:
-            par = astx.arg(c, 1, 'parameters')
-            lit = None
-            if 'record_type' in s.cols and isinstance(par, ast.Tuple) and len(par.elts) == len(s.cols):
-                lit = astx.const_str(par.elts[s.cols.index('record_type')])
-            out.append((f, lit, c, [(c2, s2) for c2, s2 in ins if s2.table in RECORD_TABLES]))
+        cases = [(c2, s2) for c2, s2, err in sql_calls(f) if s2 is not None and s2.kind == 'insert' and
+                 s2.table in RECORD_TABLES]
+        for st in sites:
+            out.append((f, st['lit'], st['node'], cases))
     return out
 
 
@@ -1166,38 +1263,42 @@ def store(repo, out):
     n = 0
     for f in m.funcs.values():
         ins = [(c, s) for c, s, err in sql_calls(f) if s is not None and s.kind == 'insert' and
-               s.table in RECORD_TABLES + ('driver_derivatives', 'global_iterations')]
-        if not ins:
+               s.table in RECORD_TABLES + ('driver_derivatives',)]
+        gsites = global_sites(repo, f)
+        if not ins and not gsites:
             continue
-        flow = Flow(f)
+        flow = func_flow(repo, f)
         ps = flow.params
         if len(ps) < 4:
             out.unsure(f, f.node, 'recording method without (requester, data, metadata) parameters')
             continue
         roles = {ps[2]: 'data', ps[3]: 'metadata'}
         case_cursor = None
-        for c, s in ins:
-            par = astx.arg(c, 1, 'parameters')
-            if not isinstance(par, ast.Tuple) or len(par.elts) != len(s.cols):
-                out.unsure(f, c, 'parameters are not a literal tuple matching the column list')
-                continue
-            at = flow.at(c)
-            if s.table == 'global_iterations':
-                v = par.elts[s.cols.index('rowid')] if 'rowid' in s.cols else None
-                cur = astx.path(astx.receiver(c))
-                if v is None:
+        events = [((c.lineno, c.col_offset), 'case', (c, s)) for c, s in ins] + \
+            [((g['node'].lineno, g['node'].col_offset), 'global', g) for g in gsites]
+        for _, what, ev in sorted(events, key=lambda x: x[0]):
+            if what == 'global':
+                g = ev
+                c = g['node']
+                if g['rowid_src'] is None:
                     out.bad(f, c, 'global_iterations row written without rowid', key='store-rowid')
-                elif isinstance(v, ast.Attribute) and v.attr == 'lastrowid' and astx.path(v.value) == case_cursor \
-                        and cur == case_cursor:
+                elif case_cursor is None:
+                    out.unsure(f, c, 'global_iterations row written before any case row')
+                elif g['rowid_base'] is not None and g['rowid_base'] == case_cursor and g['cursor'] == case_cursor:
                     out.ok(f, c, f'rowid = {case_cursor}.lastrowid of the case insert')
-                elif isinstance(v, ast.Attribute) and v.attr == 'lastrowid':
-                    out.bad(f, c, f'rowid is `{astx.src(v)}` but the case row was inserted through cursor '
-                            f'`{case_cursor}`', key='store-rowid')
+                elif g['rowid_base'] is not None:
+                    out.bad(f, c, f"rowid is `{g['rowid_base']}.lastrowid` (executed on `{g['cursor']}`) but the case "
+                            f'row was inserted through cursor `{case_cursor}`', key='store-rowid')
                 else:
-                    out.bad(f, c, f'rowid parameter `{astx.src(v)}` is not the lastrowid of the case insert: the '
+                    out.bad(f, c, f"rowid parameter `{g['rowid_src']}` is not the lastrowid of the case insert: the "
                             'reader indexes the case table with it', key='store-rowid')
                 continue
+            c, s = ev
             case_cursor = astx.path(astx.receiver(c))
+            par, at = param_tuple_at(repo, f, c)
+            if par is None or len(par.elts) != len(s.cols):
+                out.unsure(f, c, 'parameters are not a literal tuple matching the column list')
+                continue
             wrong = []
             unk = []
             for col, e in zip(s.cols, par.elts):
@@ -2600,6 +2701,38 @@ selftest(
     Mutant('pa-case', CASE, "self.parent = '|'.join(parts[:-2])", "self.parent = '|'.join(parts[:-1])", 'C17.parent'),
     Mutant('pa-nested', RDR, "parent_coord = '|'.join(case_coord.split('|')[:-2])", "parent_coord = '|'.join(case_coord.split('|')[:-3])",
            'C17.parent'),
+    # ---- shapes accepted after the robustness round (temporaries, renamed cursor, extracted helper, guard clause)
+    Twin('tw-row-vals-temp', REC, "                c.execute(\"INSERT INTO system_iterations(counter, iteration_coordinate, \"\n                          \"timestamp, success, msg, inputs , outputs , residuals ) \"\n                          \"VALUES(?,?,?,?,?,?,?,?)\",\n                          (self._counter, self._iteration_coordinate,\n                           metadata['timestamp'], metadata['success'], metadata['msg'],\n                           inputs_text, outputs_text, residuals_text))",
+         "                row_vals = (self._counter, self._iteration_coordinate,\n                            metadata['timestamp'], metadata['success'], metadata['msg'],\n                            inputs_text, outputs_text, residuals_text)\n                c.execute(\"INSERT INTO system_iterations(counter, iteration_coordinate, \"\n                          \"timestamp, success, msg, inputs , outputs , residuals ) \"\n                          \"VALUES(?,?,?,?,?,?,?,?)\", row_vals)"),
+    Mutant('st-row-vals-swapped', REC, "                c.execute(\"INSERT INTO system_iterations(counter, iteration_coordinate, \"\n                          \"timestamp, success, msg, inputs , outputs , residuals ) \"\n                          \"VALUES(?,?,?,?,?,?,?,?)\",\n                          (self._counter, self._iteration_coordinate,\n                           metadata['timestamp'], metadata['success'], metadata['msg'],\n                           inputs_text, outputs_text, residuals_text))",
+           "                row_vals = (self._counter, self._iteration_coordinate,\n                            metadata['timestamp'], metadata['success'], metadata['msg'],\n                            outputs_text, inputs_text, residuals_text)\n                c.execute(\"INSERT INTO system_iterations(counter, iteration_coordinate, \"\n                          \"timestamp, success, msg, inputs , outputs , residuals ) \"\n                          \"VALUES(?,?,?,?,?,?,?,?)\", row_vals)",
+           'C17.store'),
+    Twin('tw-cursor-renamed', REC, "            with self.connection as c:\n                c = c.cursor()  # need a real cursor for lastrowid\n\n                c.execute(\"INSERT INTO driver_iterations(",
+         "            with self.connection as conn:\n                cursor = conn.cursor()  # need a real cursor for lastrowid\n\n                cursor.execute(\"INSERT INTO driver_iterations(",
+         also=[(REC, "                c.execute(\"INSERT INTO global_iterations(record_type, rowid, source) VALUES(?,?,?)\",\n                          ('driver', c.lastrowid, driver._get_name()))",
+                "                cursor.execute(\"INSERT INTO global_iterations(record_type, rowid, source) VALUES(?,?,?)\",\n                               ('driver', cursor.lastrowid, driver._get_name()))")]),
+    Mutant('st-other-cursor', REC, "                c.execute(\"INSERT INTO global_iterations(record_type, rowid, source) VALUES(?,?,?)\",\n                          ('driver', c.lastrowid, driver._get_name()))",
+           "                c2 = self.connection.cursor()\n                c2.execute(\"INSERT INTO global_iterations(record_type, rowid, source) VALUES(?,?,?)\",\n                           ('driver', c2.lastrowid, driver._get_name()))", 'C17.store'),
+    Twin('tw-global-helper', REC, "    def record_iteration_driver(self, driver, data, metadata):",
+         "    def _insert_global_iteration(self, cursor, record_type, source):\n        cursor.execute(\"INSERT INTO global_iterations(record_type, rowid, source) VALUES(?,?,?)\",\n                       (record_type, cursor.lastrowid, source))\n\n    def record_iteration_driver(self, driver, data, metadata):",
+         also=[(REC, "                c.execute(\"INSERT INTO global_iterations(record_type, rowid, source) VALUES(?,?,?)\",\n                          ('driver', c.lastrowid, driver._get_name()))",
+                "                self._insert_global_iteration(c, 'driver', driver._get_name())"),
+               (REC, "                c.execute(\"INSERT INTO global_iterations(record_type, rowid, source) VALUES(?,?,?)\",\n                          ('problem', c.lastrowid, metadata['name']))",
+                "                self._insert_global_iteration(c, 'problem', metadata['name'])"),
+               (REC, "                c.execute(\"INSERT INTO global_iterations(record_type, rowid, source) VALUES(?,?,?)\",\n                          ('system', c.lastrowid, source_system))",
+                "                self._insert_global_iteration(c, 'system', source_system)"),
+               (REC, "                c.execute(\"INSERT INTO global_iterations(record_type, rowid, source) VALUES(?,?,?)\",\n                          ('solver', c.lastrowid, source_solver))",
+                "                self._insert_global_iteration(c, 'solver', source_solver)")]),
+    Mutant('rt-helper-wrong-type', REC, "    def record_iteration_driver(self, driver, data, metadata):",
+           "    def _insert_global_iteration(self, cursor, record_type, source):\n        cursor.execute(\"INSERT INTO global_iterations(record_type, rowid, source) VALUES(?,?,?)\",\n                       (record_type, cursor.lastrowid, source))\n\n    def record_iteration_driver(self, driver, data, metadata):",
+           'C17.rectype',
+           also=[(REC, "                c.execute(\"INSERT INTO global_iterations(record_type, rowid, source) VALUES(?,?,?)\",\n                          ('system', c.lastrowid, source_system))",
+                  "                self._insert_global_iteration(c, 'solver', source_system)")]),
+    Twin('tw-flat-guard-clause', RDR, "            if case_coord.startswith(coord):\n                cases.append(case_coord)\n                self.source_cases_table[table].append(case_coord)\n\n                if out_stream:",
+         "            if not case_coord.startswith(coord):\n                continue\n            cases.append(case_coord)\n            self.source_cases_table[table].append(case_coord)\n            if True:\n                if out_stream:"),
+    Mutant('or-guard-clause-inverted', RDR, "            if case_coord.startswith(coord):\n                cases.append(case_coord)\n                self.source_cases_table[table].append(case_coord)\n\n                if out_stream:",
+           "            if case_coord.startswith(coord):\n                continue\n            cases.append(case_coord)\n            self.source_cases_table[table].append(case_coord)\n            if True:\n                if out_stream:",
+           'C17.order'),
     # ---- pre-fix shapes of the two C17 findings repaired in /repo
     Mutant('ro-list-sources-prefix', RDR, "if not (source == 'root' or source.startswith('root.')):",
            "if not source.startswith('root'):", 'C17.rooted'),
